@@ -250,4 +250,296 @@ def specMedian2 (b0 b1 : Nat) (x : List (List Rat)) (i j : Nat) : SpecPx :=
     .exact (specMedianCell2 (b0 / 2) (b1 / 2) x i j)
   else .range (at2 x i j) (minL (realWin2 (b0 / 2) (b1 / 2) x i j)) (maxL (realWin2 (b0 / 2) (b1 / 2) x i j))
 
+/-! ## the two "comes back unchanged" clauses as one decidable condition
+
+`constant_unchanged*` and `inf_threshold_unchanged*` (PewTheorems/C13) say that under this condition
+both filters return the input, every pixel of it, border included.  The correspondence check reads the
+condition from here and then demands the input back bit for bit. -/
+
+def allEq : List Rat → Bool
+  | [] => true
+  | a :: l => l.all (fun v => v == a)
+
+/-- the image (row-major) is constant, or the threshold is infinite -/
+def mustBeUnchanged (t : Option Rat) (data : List Rat) : Bool := t.isNone || allEq data
+
+/-! ## float level (1): what a rounded evaluation can do to a constant image
+
+Every number the mean filter computes from a constant image `c` before the outlier test — a pad
+value, a window mean, a masked window mean — is built from copies of `c` by rounded additions and
+rounded divisions by a count, in whatever order the summation routine chooses.  `FExpr` is such a
+computation, `eval fl c` its value under the rounding function `fl`, `weight · c` its exact value
+(a mean has weight 1) and `depth` the number of roundings on its longest path.  A mean over the
+`b0·b1` values of a window whose pad values are means (axis 0, `h0` values) of means (axis 1, `h1`
+values) has depth at most `h0 + h1 + b0·b1` for every summation order. -/
+
+inductive FExpr where
+  | c : FExpr
+  | add (a b : FExpr) : FExpr
+  | divn (a : FExpr) (n : Nat) : FExpr
+  deriving Repr
+
+namespace FExpr
+
+def eval (fl : Rat → Rat) (c : Rat) : FExpr → Rat
+  | .c => c
+  | .add a b => fl (a.eval fl c + b.eval fl c)
+  | .divn a n => fl (a.eval fl c / (n : Rat))
+
+def weight : FExpr → Rat
+  | .c => 1
+  | .add a b => a.weight + b.weight
+  | .divn a n => a.weight / (n : Rat)
+
+def depth : FExpr → Nat
+  | .c => 0
+  | .add a b => max a.depth b.depth + 1
+  | .divn a _ => a.depth + 1
+
+/-- `q` is one of the naturals `0..N` -/
+def natUpTo (N : Nat) (q : Rat) : Bool := q.den == 1 && decide (0 ≤ q.num) && decide (q.num.toNat ≤ N)
+
+/-- every intermediate result is (exactly) a multiple `j·c` with `j ≤ N`, no division by zero -/
+def wf (N : Nat) : FExpr → Bool
+  | .c => decide (1 ≤ N)
+  | .add a b => a.wf N && b.wf N && natUpTo N (a.weight + b.weight)
+  | .divn a n => a.wf N && n != 0 && natUpTo N (a.weight / (n : Rat))
+
+/-- `n` copies added left to right (n ≥ 1) -/
+def seqSum : Nat → FExpr
+  | 0 => .c
+  | 1 => .c
+  | n + 1 => .add (seqSum n) .c
+
+end FExpr
+
+/-- bound on `|value − c|` of a weight-1 computation of depth at most `E` under unit roundoff `u` -/
+def constBound (u : Rat) (E : Nat) (c : Rat) : Rat := ((1 + u) ^ E - 1) * absR c
+
+def stripTwos : Nat → Nat → Nat
+  | 0, m => m
+  | f + 1, m => if m ≠ 0 ∧ m % 2 = 0 then stripTwos f (m / 2) else m
+
+/-- `q` is a number of the binary floating-point format with `p` significand bits whose smallest
+positive number is `2^emin` (binary64: 53, −1074; binary32: 24, −149); overflow is not modelled -/
+def isBin (p : Nat) (emin : Int) (q : Rat) : Bool :=
+  let k := Nat.log2 q.den
+  q.den == 2 ^ k && decide ((k : Int) ≤ -emin) &&
+    decide (stripTwos q.num.natAbs.log2 q.num.natAbs < 2 ^ p) &&
+    -- an integer multiple of 2^emin when emin > 0 never occurs for the formats used; keep it total
+    decide (0 ≤ -emin)
+
+/-- every partial sum `j·c`, `j ≤ N`, of a window of `N` copies of `c` is a number of the format:
+then any summation order, the pads and the divisions by the counts are exact -/
+def sumsExact (p : Nat) (emin : Int) (N : Nat) (c : Rat) : Bool :=
+  (List.range (N + 1)).all (fun j => isBin p emin ((j : Rat) * c))
+
+/-! ## the mean filter with its arithmetic left open
+
+`π` is the pad statistic, `μm` the masked mean a flagged pixel is replaced by, `dec` the outlier
+decision — any function of the pixel and its (padded) window, so any threshold and any way of
+computing means and spread.  `rollingMean1/2` are the instances with exact arithmetic
+(`rollingMean*_is_G`); an evaluation in rounded arithmetic is another instance (`flMean`). -/
+
+def cellsG1 {β} (π : List Rat → Rat) (g : Rat → List Rat → β) (b : Nat) (x : List Rat) : List β :=
+  List.zipWith g x (windows1 b (pad1 π (b / 2) x))
+
+def cellsG2 {β} (π : List Rat → Rat) (g : Rat → List (List Rat) → β) (b0 b1 : Nat)
+    (x : List (List Rat)) : List (List β) :=
+  List.zipWith (fun row wrow => List.zipWith g row wrow) x (windows2 b0 b1 (pad2 π (b0 / 2) (b1 / 2) x))
+
+def rollingG1 (π μm : List Rat → Rat) (dec : Rat → List Rat → Bool) (b : Nat) (x : List Rat) : List Rat :=
+  cellsG1 π (fun xi w => if dec xi w then μm (w.eraseIdx (b / 2)) else xi) b x
+
+def rollingG2 (π μm : List Rat → Rat) (dec : Rat → List (List Rat) → Bool) (b0 b1 : Nat)
+    (x : List (List Rat)) : List (List Rat) :=
+  cellsG2 π (fun xi w => if dec xi w then μm (maskCentre2 (b0 / 2) (b1 / 2) w) else xi) b0 b1 x
+
+/-- `np.round` (half to even): what `np.pad` applies to a pad statistic of an integer image before
+it casts the value to the image's dtype -/
+def rint (q : Rat) : Rat :=
+  let f := q.floor
+  let r := q - (f : Rat)
+  if r < 1 / 2 then (f : Rat)
+  else if 1 / 2 < r then ((f + 1 : Int) : Rat)
+  else if f % 2 = 0 then (f : Rat) else ((f + 1 : Int) : Rat)
+
+/-- the mean-filter cells with pad statistic `π` (`meanCells*` are the instances `π = mean`; an
+integer image is padded with `π = rint ∘ mean`) -/
+def meanCellsP1 (π : List Rat → Rat) (b : Nat) (x : List Rat) : List Cell :=
+  cellsG1 π (fun xi w => meanCell xi w (w.eraseIdx (b / 2))) b x
+
+def meanCellsP2 (π : List Rat → Rat) (b0 b1 : Nat) (x : List (List Rat)) : List (List Cell) :=
+  cellsG2 π (fun xi w => meanCell xi w.flatten (maskCentre2 (b0 / 2) (b1 / 2) w)) b0 b1 x
+
+/-- the median-filter cells with pad statistic `π1` for the image and `π2` for the deviations
+(`medianCells*` are the instances `π1 = π2 = median`; an integer image is padded with
+`π1 = rint ∘ median`, its float deviations with `π2 = median`) -/
+def medianCellsP1 (π1 π2 : List Rat → Rat) (b : Nat) (x : List Rat) : List Cell :=
+  let med := (windows1 b (pad1 π1 (b / 2) x)).map median
+  let diff := List.zipWith (fun xi m => absR (xi - m)) x med
+  let mad := (windows1 b (pad1 π2 (b / 2) diff)).map (fun w => median w * madK)
+  zip3With (fun xi m s => { x := xi, d := absR (xi - m), s := s, repl := m }) x med mad
+
+def medianCellsP2 (π1 π2 : List Rat → Rat) (b0 b1 : Nat) (x : List (List Rat)) : List (List Cell) :=
+  let med := (windows2 b0 b1 (pad2 π1 (b0 / 2) (b1 / 2) x)).map (fun r => r.map (fun w => median w.flatten))
+  let diff := List.zipWith (fun row mrow => List.zipWith (fun xi m => absR (xi - m)) row mrow) x med
+  let mad := (windows2 b0 b1 (pad2 π2 (b0 / 2) (b1 / 2) diff)).map
+    (fun r => r.map (fun w => median w.flatten * madK))
+  zip3With (fun row mrow srow =>
+      zip3With (fun xi m s => ({ x := xi, d := absR (xi - m), s := s, repl := m } : Cell)) row mrow srow)
+    x med mad
+
+/-- a mean in rounded arithmetic: the values added left to right, every addition and the division
+by the count rounded by `fl` -/
+def flMean (fl : Rat → Rat) : List Rat → Rat
+  | [] => 0
+  | a :: r => fl (r.foldl (fun s v => fl (s + v)) a / ((r.length + 1 : Nat) : Rat))
+
+/-! ## float level (2): the mean and median filters in binary64, in NumPy's order of evaluation
+
+Lean's `Float` is IEEE binary64 with a software model the kernel can evaluate, so statements about
+concrete images are checked by `decide +kernel`.  The order of the additions is the one NumPy 2.x uses
+for these calls (observed: the correspondence check compares the result bit for bit with pewlib and
+reports agreement as a feature; it is not part of the verdict, the property does not fix an order):
+`np.add.reduce` over a contiguous run is `DOUBLE_pairwise_sum` (fewer than 8 values left to right
+from −0.0, up to 128 values eight running sums combined as a tree and the rest added at the end);
+a reduction over the two window axes adds the pairwise sums of the window rows one after the other;
+`where=mask` starts from +0.0 and splits the centre row into the runs before and after the centre;
+`np.std` subtracts its own masked mean, squares, sums the same way, divides and takes the root. -/
+namespace F64
+
+def seqAdd (init : Float) (a : List Float) : Float := a.foldl (· + ·) init
+
+/-- `r[j] += a[8k + j]` for `k` further blocks of eight -/
+def lanes : Nat → List Float → List Float → List Float × List Float
+  | 0, r, a => (r, a)
+  | k + 1, r, a => lanes k (List.zipWith (· + ·) r (a.take 8)) (a.drop 8)
+
+/-- `DOUBLE_pairwise_sum` for at most 128 values -/
+def pwBlock (a : List Float) : Float :=
+  if a.length < 8 then seqAdd (-0.0) a
+  else
+    match lanes (a.length / 8 - 1) (a.take 8) (a.drop 8) with
+    | ([r0, r1, r2, r3, r4, r5, r6, r7], rest) =>
+      seqAdd (((r0 + r1) + (r2 + r3)) + ((r4 + r5) + (r6 + r7))) rest
+    | _ => 0.0
+
+/-- `DOUBLE_pairwise_sum`: above 128 values the halves (the first a multiple of 8) are summed recursively -/
+def pwFuel : Nat → List Float → Float
+  | 0, a => pwBlock a
+  | f + 1, a =>
+    if a.length ≤ 128 then pwBlock a
+    else
+      let n2 := a.length / 2 - (a.length / 2) % 8
+      pwFuel f (a.take n2) + pwFuel f (a.drop n2)
+
+def pw (a : List Float) : Float := pwFuel a.length a
+
+/-- `np.mean` of a contiguous run -/
+def npMean (a : List Float) : Float := pw a / a.length.toFloat
+
+def insertSorted (a : Float) : List Float → List Float
+  | [] => [a]
+  | b :: l => if a ≤ b then a :: b :: l else b :: insertSorted a l
+
+/-- insertion sort (structural recursion: the kernel evaluates it) -/
+def fsort (l : List Float) : List Float := l.foldr insertSorted []
+
+/-- `np.median` (no NaN): the middle order statistic, or the mean of the two middle ones -/
+def npMedian (l : List Float) : Float :=
+  let s := fsort l
+  if l.length % 2 = 1 then s.getD (l.length / 2) 0.0
+  else (-0.0 + s.getD (l.length / 2 - 1) 0.0 + s.getD (l.length / 2) 0.0) / 2.0
+
+def pad1 (stat : List Float → Float) (h : Nat) (x : List Float) : List Float :=
+  padEnds h (stat (x.take h)) (stat (x.drop (x.length - h))) x
+
+def column (rows : List (List Float)) (j : Nat) : List Float := rows.map (fun r => r.getD j 0.0)
+
+def colStat (stat : List Float → Float) (n1 : Nat) (rows : List (List Float)) : List Float :=
+  (List.range n1).map (fun j => stat (column rows j))
+
+def pad2 (stat : List Float → Float) (h0 h1 : Nat) (x : List (List Float)) : List (List Float) :=
+  let n1 := (x.headD []).length
+  (padEnds h0 (colStat stat n1 (x.take h0)) (colStat stat n1 (x.drop (x.length - h0))) x).map
+    (pad1 stat h1)
+
+/-- all windows of the padded image; a 1-D signal is an image of one row with `b0 = 1`, `h0 = 0` -/
+def windows (b0 b1 : Nat) (p : List (List Float)) : List (List (List (List Float))) :=
+  (List.range (p.length + 1 - b0)).map (fun i =>
+    (List.range ((p.headD []).length + 1 - b1)).map (fun j => (slice i b0 p).map (slice j b1)))
+
+/-- the sum of the pairwise sums of the rows (runs), one after the other -/
+def rowsSum (init : Float) (w : List (List Float)) : Float := w.foldl (fun s r => s + pw r) init
+
+/-- the runs `where=mask` leaves: rows before the centre row, the centre row before and after the
+centre, rows after it -/
+def maskedRuns (h0 h1 : Nat) (w : List (List Float)) : List (List Float) :=
+  w.take h0 ++ [(w.getD h0 []).take h1, (w.getD h0 []).drop (h1 + 1)] ++ w.drop (h0 + 1)
+
+structure Cell where
+  x : Float
+  /-- `np.mean(blocks)` -/
+  m : Float
+  /-- `np.mean(blocks, where=mask)` -/
+  mm : Float
+  /-- `np.std(blocks, where=mask)` -/
+  sd : Float
+
+def meanCell (x : Float) (h0 h1 : Nat) (w : List (List Float)) : Cell :=
+  let n := (w.map List.length).sum
+  let runs := maskedRuns h0 h1 w
+  let mm := rowsSum 0.0 runs / (n - 1).toFloat
+  let sq := runs.map (fun r => r.map (fun v => (v - mm) * (v - mm)))
+  { x := x, m := rowsSum (-0.0) w / n.toFloat, mm := mm,
+    sd := Float.sqrt (rowsSum 0.0 sq / (n - 1).toFloat) }
+
+/-- `np.where(np.abs(x - means) > threshold * masked_stds, masked_means, x)` -/
+def Cell.out (t : Float) (c : Cell) : Float :=
+  if Float.abs (c.x - c.m) > t * c.sd then c.mm else c.x
+
+def zip2With {α β γ} (f : α → β → γ) (a : List (List α)) (b : List (List β)) : List (List γ) :=
+  List.zipWith (fun r s => List.zipWith f r s) a b
+
+def meanCells2 (b0 b1 : Nat) (x : List (List Float)) : List (List Cell) :=
+  zip2With (fun xi w => meanCell xi (b0 / 2) (b1 / 2) w) x (windows b0 b1 (pad2 npMean (b0 / 2) (b1 / 2) x))
+
+def rollingMean2 (b0 b1 : Nat) (t : Float) (x : List (List Float)) : List (List Float) :=
+  (meanCells2 b0 b1 x).map (fun r => r.map (fun c => c.out t))
+
+def meanCells1 (b : Nat) (x : List Float) : List Cell :=
+  List.zipWith (fun xi w => meanCell xi 0 (b / 2) w) x
+    ((windows 1 b [pad1 npMean (b / 2) x]).headD [])
+
+def rollingMean1 (b : Nat) (t : Float) (x : List Float) : List Float :=
+  (meanCells1 b x).map (fun c => c.out t)
+
+/-- window medians of the padded image -/
+def medians2 (b0 b1 : Nat) (x : List (List Float)) : List (List Float) :=
+  (windows b0 b1 (pad2 npMedian (b0 / 2) (b1 / 2) x)).map (fun r => r.map (fun w => npMedian w.flatten))
+
+/-- `rolling_median`: `diff = |x − medians|`, `mad = median(windows of padded diff) · 1.4826`,
+`where(diff > threshold · mad, medians, x)` -/
+def rollingMedian2 (b0 b1 : Nat) (t : Float) (x : List (List Float)) : List (List Float) :=
+  let med := medians2 b0 b1 x
+  let diff := zip2With (fun xi m => Float.abs (xi - m)) x med
+  let mad := (medians2 b0 b1 diff).map (fun r => r.map (fun v => v * 1.4826))
+  zip2With (fun (xm : Float × Float) (ds : Float × Float) => if ds.1 > t * ds.2 then xm.2 else xm.1)
+    (zip2With Prod.mk x med) (zip2With Prod.mk diff mad)
+
+def medians1 (b : Nat) (x : List Float) : List Float :=
+  ((windows 1 b [pad1 npMedian (b / 2) x]).headD []).map (fun w => npMedian w.flatten)
+
+def rollingMedian1 (b : Nat) (t : Float) (x : List Float) : List Float :=
+  let med := medians1 b x
+  let diff := List.zipWith (fun xi m => Float.abs (xi - m)) x med
+  let mad := (medians1 b diff).map (fun v => v * 1.4826)
+  List.zipWith (fun (xm : Float × Float) (ds : Float × Float) => if ds.1 > t * ds.2 then xm.2 else xm.1)
+    (List.zip x med) (List.zip diff mad)
+
+def bits (l : List Float) : List UInt64 := l.map Float.toBits
+
+end F64
+
 end Pew.Filters
